@@ -146,6 +146,15 @@ pub fn diff_model_ext(mem: &mut Memvid, model: &Model, ro: bool, at: &str, allow
             if f.st != St::Active {
                 continue;
             }
+            // C14: the embedding given with the frame is the one the index holds for it
+            if let Some(e) = &f.emb {
+                match mem.frame_embedding(f.id) {
+                    Ok(Some(g)) if &g == e => {}
+                    Ok(Some(_)) => out.push((vec!["C14", "C01"], "embedding-as-given", format!("[{at}] frame {} embedding differs from the one given", f.id))),
+                    Ok(None) => out.push((vec!["C14", "C01"], "embedding-present", format!("[{at}] frame {} was given an embedding; the index has none for it", f.id))),
+                    Err(e) => out.push((vec!["C14", "C01"], "embedding-present", format!("[{at}] frame_embedding({}) failed: {}", f.id, errs(&e)))),
+                }
+            }
             let Some(exp) = &f.payload else { continue };
             // chunk parents whose children are not all active cannot be reassembled; skip those
             if f.chunks > 0 {
